@@ -2506,12 +2506,13 @@ class SumIntegerExpr(MathIntegerExpr):
         self.negate = negate
 
     def get_literal_result(self):
-        total = self.children[0].get_literal_result()
+        total = int(self.children[0].get_literal_result())
         for operand, operator in itertools.islice(zip(self.children, self.negate), 1, None):
             if operator:
-                total -= operand
+                total -= int(operand.get_literal_result())
             else:
-                total += operand
+                total += int(operand.get_literal_result())
+        return total
 
     def __eq__(self, other):
         if not isinstance(other, SumIntegerExpr): return False
